@@ -60,6 +60,19 @@ def inbound(codec, d):
     raise ValueError(codec)
 
 
+def bracketed_v6(wire, ip, port):
+    """CONNECT [v6]:port - read the way a third party reads an authority"""
+    try:
+        parts = wire.split(b"\r\n")[0].split(b" ")
+        t = parts[1].decode("ascii")
+        if not t.startswith("["):
+            return False
+        lit, _, rest = t[1:].partition("]")
+        return ipaddress.IPv6Address(lit) == ipaddress.IPv6Address(ip) and rest == ":%d" % port
+    except (ValueError, IndexError, UnicodeDecodeError):
+        return False
+
+
 def asked(d):
     """(host text bytes, port) the client asked for"""
     if d["kind"] == "domain":
@@ -119,6 +132,8 @@ def run(tier, t0):
         if bytes.fromhex(t2["host"]) != host or t2["port"] != port:
             v.report(key_of(c, "next-hop-sees-other-destination"),
                      {"asked": [host.hex()[:80], port], "next_hop": {"host": t2["host"][:80], "port": t2["port"]}, "must_refuse": c["must_refuse"]}, rep)
+        elif c.get("wire_rule") == "bracketed-v6" and not bracketed_v6(bytes.fromhex(r["wire"]), c["d"]["ip"], port):
+            v.report(key_of(c, "wire-form/ipv6-without-brackets"), {"asked": [host.decode(), port], "request_line": bytes.fromhex(r["wire"]).split(b"\r\n")[0].decode("latin1")}, rep)
         elif r.get("extra"):
             v.report(key_of(c, "extra-bytes"), {"extra": r["extra"][:80]}, rep)
         elif c["outc"] == "http" and (t2.get("method") != "CONNECT" or [h[0] for h in t2.get("headers", [])] != ["Host"]):
